@@ -57,7 +57,7 @@ Section Conic.
      let t1' := sheet (behind t1) in
      let t2' := sheet (behind t2) in
      let t := if xleb (xabs (zat t1')) (xabs (zat t2')) then t1' else t2' in
-     if Reqb a 0 then xdiv (Fin (- c)) (Fin b) else t).
+     if Reqb a 0 then behind (xdiv (Fin (- c)) (Fin b)) else t).
   Proof.
     unfold res, k_std_distance, sheet, behind, zat. xops. cbn [xadd xsub xmul xneg xeqb xltb].
     rewrite Rlit_half, Rlit_one.
@@ -131,10 +131,11 @@ Section Conic.
   Proof.
     rewrite res_unfold, quadric_along_ray. cbv zeta.
     unfold Reqb. destruct (Req_EM_T a 0) as [Ea|Ea].
-    - (* linear branch *)
-      cbn [xdiv]. destruct (Req_EM_T b 0) as [Eb|Eb].
-      + destruct (Rlt_dec 0 (- c)); [discriminate|]. destruct (Rlt_dec (- c) 0); discriminate.
-      + intros H; injection H as <-. split; [|contradiction]. rewrite Ea. field; exact Eb.
+    - (* linear branch: the single root, ignored when it lies behind the ray *)
+      unfold behind. cbn [xdiv]. destruct (Req_EM_T b 0) as [Eb|Eb].
+      + destruct (Rlt_dec 0 (- c)); [cbn; discriminate|]. destruct (Rlt_dec (- c) 0); cbn; discriminate.
+      + cbn [xltb]. unfold Rltb. destruct (Rlt_dec (- c / b) 0); [discriminate|].
+        intros H; injection H as <-. split; [|contradiction]. rewrite Ea. field; exact Eb.
     - cbn [xsqrt]. destruct (Rlt_dec d 0) as [Hd|Hd].
       + (* negative discriminant: everything is NaN *)
         unfold sheet, behind, zat. destruct (Rltb b 0); cbn; discriminate.
@@ -157,6 +158,19 @@ Section Conic.
         rewrite H in K.
         destruct K as [K|(t' & E & Ht & Q & Hsh)]; [discriminate|].
         injection E as <-. split; [exact Q|intros _; split; assumption].
+  Qed.
+
+  (** a finite distance is never negative - also in the degenerate branch [a = 0] (a ray parallel to the axis of a
+      paraboloid or along an asymptote of a hyperboloid), which applies the behind-the-ray filter too *)
+  Theorem conic_distance_nonneg t : res = Fin t -> 0 <= t.
+  Proof.
+    intros H. destruct (Req_EM_T a 0) as [Ea|Ea].
+    - revert H. rewrite res_unfold. cbv zeta. unfold Reqb. destruct (Req_EM_T a 0) as [_|]; [|contradiction].
+      unfold behind. cbn [xdiv]. destruct (Req_EM_T b 0) as [Eb|Eb].
+      + destruct (Rlt_dec 0 (- c)); [cbn; discriminate|]. destruct (Rlt_dec (- c) 0); cbn; discriminate.
+      + cbn [xltb]. unfold Rltb. destruct (Rlt_dec (- c / b) 0) as [|Hn]; [discriminate|].
+        intros H; injection H as <-. lra.
+    - destruct (conic_distance_sound_sheet t H) as [_ P]. apply P, Ea.
   Qed.
 
   Theorem conic_distance_sound t :
